@@ -303,3 +303,74 @@ Section ReduceP.
       exists ijs. split; [exact E|]. intros Hf. apply F. exact Hf.
   Qed.
 End ReduceP.
+
+(* ---------- collapseCloseVertices: also a sequence of validated vertex shortcuts; the pair tried is a closest open pair *)
+Section CollapseP.
+  Variable St : Type.
+  Variable mv : St -> St -> bool.
+  Variable dist : St -> St -> Z.
+  Variable steq : St -> St -> bool.
+  Notation cc_best := (cc_best St dist steq).
+  Notation cc_entry := (cc_entry St dist steq).
+
+  Lemma in_cc_pairs n a b : In (a, b) (cc_pairs n) <-> (S a < b)%nat /\ (b < n)%nat.
+  Proof.
+    unfold cc_pairs. rewrite in_flat_map. split.
+    - intros (i & Hi & Hin). apply in_map_iff in Hin. destruct Hin as (j & E & Hj). injection E as <- <-. apply in_seq in Hi, Hj. lia.
+    - intros (H1 & H2). exists a. split; [apply in_seq; lia|]. apply in_map_iff. exists b. split; [reflexivity|apply in_seq; lia].
+  Qed.
+  (* the scan returns a pair of the list whose entry is open and minimal among the open entries *)
+  Lemma cc_best_spec p blocked d : match cc_best p blocked d with
+    | Some ((a, b), v) => In (a, b) (cc_pairs (length p)) /\ cc_entry blocked (nth a p d) (nth b p d) = Some v /\
+                          (forall a' b' v', In (a', b') (cc_pairs (length p)) -> cc_entry blocked (nth a' p d) (nth b' p d) = Some v' -> v <= v')
+    | None => forall a' b', In (a', b') (cc_pairs (length p)) -> cc_entry blocked (nth a' p d) (nth b' p d) = None
+    end.
+  Proof.
+    unfold PathModel.cc_best. set (F := fun best ij => _).
+    assert (G : forall l best seen,
+      match best with
+      | Some ((a, b), v) => In (a, b) seen /\ cc_entry blocked (nth a p d) (nth b p d) = Some v /\ (forall a' b' v', In (a', b') seen -> cc_entry blocked (nth a' p d) (nth b' p d) = Some v' -> v <= v')
+      | None => forall a' b', In (a', b') seen -> cc_entry blocked (nth a' p d) (nth b' p d) = None
+      end ->
+      match fold_left F l best with
+      | Some ((a, b), v) => In (a, b) (seen ++ l) /\ cc_entry blocked (nth a p d) (nth b p d) = Some v /\ (forall a' b' v', In (a', b') (seen ++ l) -> cc_entry blocked (nth a' p d) (nth b' p d) = Some v' -> v <= v')
+      | None => forall a' b', In (a', b') (seen ++ l) -> cc_entry blocked (nth a' p d) (nth b' p d) = None
+      end).
+    { induction l as [|[i j] t IH]; intros best seen H; cbn [fold_left]; [rewrite app_nil_r; exact H|].
+      replace (seen ++ (i, j) :: t) with ((seen ++ [(i, j)]) ++ t) by (rewrite <- app_assoc; reflexivity). apply IH. unfold F at 1. cbn [fst snd].
+      destruct (cc_entry blocked (nth i p d) (nth j p d)) as [v|] eqn:Ev.
+      - destruct best as [[[a b] bv]|].
+        + destruct H as (H1 & H2 & H3). destruct (Z.ltb_spec v bv) as [L|L].
+          * split; [apply in_or_app; right; left; reflexivity|]. split; [exact Ev|]. intros a' b' v' Hin He. apply in_app_or in Hin. destruct Hin as [Hin|[E|[]]]; [specialize (H3 a' b' v' Hin He); lia|]. injection E as <- <-. rewrite Ev in He. injection He as <-. lia.
+          * split; [apply in_or_app; left; exact H1|]. split; [exact H2|]. intros a' b' v' Hin He. apply in_app_or in Hin. destruct Hin as [Hin|[E|[]]]; [apply (H3 a' b' v' Hin He)|]. injection E as <- <-. rewrite Ev in He. injection He as <-. lia.
+        + split; [apply in_or_app; right; left; reflexivity|]. split; [exact Ev|]. intros a' b' v' Hin He. apply in_app_or in Hin. destruct Hin as [Hin|[E|[]]]; [rewrite (H a' b' Hin) in He; discriminate|]. injection E as <- <-. rewrite Ev in He. injection He as <-. lia.
+      - destruct best as [[[a b] bv]|].
+        + destruct H as (H1 & H2 & H3). split; [apply in_or_app; left; exact H1|]. split; [exact H2|]. intros a' b' v' Hin He. apply in_app_or in Hin. destruct Hin as [Hin|[E|[]]]; [apply (H3 a' b' v' Hin He)|]. injection E as <- <-. rewrite Ev in He. discriminate.
+        + intros a' b' Hin. apply in_app_or in Hin. destruct Hin as [Hin|[E|[]]]; [apply (H a' b' Hin)|]. injection E as <- <-. exact Ev. }
+    apply (G (cc_pairs (length p)) None []). intros a' b' [].
+  Qed.
+
+  Theorem cc_loop_is_shortcuts : forall steps nochange maxEmpty p blocked changed d,
+    exists ijs, fst (cc_loop St mv dist steq steps nochange maxEmpty p blocked changed d) = shortcuts St mv p ijs d /\
+      (snd (cc_loop St mv dist steq steps nochange maxEmpty p blocked changed d) = false -> changed = false /\ fst (cc_loop St mv dist steq steps nochange maxEmpty p blocked changed d) = p).
+  Proof.
+    induction steps as [|k IH]; intros nochange maxEmpty p blocked changed d; cbn [cc_loop].
+    - exists []. split; [reflexivity|cbn; auto].
+    - destruct (nochange <? maxEmpty)%nat; [|exists []; split; [reflexivity|cbn; auto]].
+      pose proof (cc_best_spec p blocked d) as BS. destruct (cc_best p blocked d) as [[[a b] v]|]; [|exists []; split; [reflexivity|cbn; auto]].
+      destruct BS as (Hin & _ & _). apply in_cc_pairs in Hin. destruct Hin as (G1 & G2).
+      destruct (mv (nth a p d) (nth b p d)) eqn:Em; [|apply IH].
+      destruct (IH 1%nat maxEmpty (firstn (S a) p ++ skipn b p) blocked true d) as (ijs & E & F).
+      exists ((a, b) :: ijs). split.
+      + rewrite E. unfold shortcuts. cbn [fold_left fst snd]. rewrite (shortcut_eq St mv p a b d G1 G2 Em). reflexivity.
+      + intros Hf. destruct (F Hf) as (Hc & _). discriminate.
+  Qed.
+  Theorem collapse_close_is_shortcuts : forall p maxSteps maxEmpty d,
+    exists ijs, fst (collapse_close St mv dist steq p maxSteps maxEmpty d) = shortcuts St mv p ijs d /\
+      (snd (collapse_close St mv dist steq p maxSteps maxEmpty d) = false -> fst (collapse_close St mv dist steq p maxSteps maxEmpty d) = p).
+  Proof.
+    intros p maxSteps maxEmpty d. unfold collapse_close. destruct (length p <? 3)%nat; [exists []; split; [reflexivity|auto]|].
+    destruct (cc_loop_is_shortcuts (if (maxSteps =? 0)%nat then length p else maxSteps) 0%nat (if (maxEmpty =? 0)%nat then length p else maxEmpty) p [] false d) as (ijs & E & F).
+    exists ijs. split; [exact E|]. intros Hf. apply F. exact Hf.
+  Qed.
+End CollapseP.
